@@ -121,4 +121,46 @@ theorem mrecycle (s : S) (roots : Nat → List Nat) (L : List Nat) (h : MWF s ro
   · exact h.fresh x hx hx0
   · exact hL x hx hx0
 
+/-! ### histories: mappings, truncations and the reuse of freed blocks, on any files -/
+
+inductive MOp where
+  | map (a bn : Nat)             -- `bmap` of block `bn` of file `a`
+  | shrink (a T N : Nat)         -- the run of `Shrink` on file `a` from `N` down to `T`
+  | recycle (L : List Nat)       -- the allocator hands out again what `L` lists
+
+def mapply (sr : S × (Nat → List Nat)) : MOp → S × (Nat → List Nat)
+  | .map a bn => mstep sr (a, bn)
+  | .shrink a T N => ((shrinkTo sr.1 (sr.2 a) T N).1, setRoots sr.2 a (shrinkTo sr.1 (sr.2 a) T N).2)
+  | .recycle L => ({ sr.1 with allocs := sr.1.allocs ++ L }, sr.2)
+
+/-- what each step needs: an addressable block; a truncation that starts at (or above) the file's
+    bookkeeping bound (`InoOK` keeps that bound for every file: `Lemmas/InoOps`); a recycled block
+    that no file owns, that is all zeros and that is not in the allocator already -/
+def MValid : S × (Nat → List Nat) → List MOp → Prop
+  | _, [] => True
+  | sr, op :: rest =>
+    (match op with
+      | .map _ bn => bn < NDIRECT + NBLKBLK + NBLKBLK * NBLKBLK
+      | .shrink a _ N => N ≤ MAXBLKS ∧ EmptyFrom sr.1.st (sr.2 a) N
+      | .recycle L =>
+        (∀ x ∈ L, x ≠ 0 → (∀ f p, p.valid → ptr sr.1.st (sr.2 f) p ≠ x) ∧ ∀ i, sr.1.st x i = 0) ∧
+        DistinctNZ (sr.1.allocs ++ L)) ∧
+    MValid (mapply sr op) rest
+
+/-- NO BLOCK HAS TWO OWNERS, whatever the history: any number of files, any interleaving of block
+    mappings, truncations and reuse of freed blocks -/
+theorem mhistory_wf (ops : List MOp) : ∀ (sr : S × (Nat → List Nat)), MWF sr.1 sr.2 → MValid sr ops →
+    MWF (ops.foldl mapply sr).1 (ops.foldl mapply sr).2 := by
+  induction ops with
+  | nil => intro sr h _; exact h
+  | cons op rest ih =>
+    intro sr h hv
+    simp only [List.foldl_cons]
+    obtain ⟨hop, hrest⟩ := hv
+    refine ih _ ?_ hrest
+    cases op with
+    | map a bn => exact (mbmap_ok sr.1 sr.2 a bn h hop).1
+    | shrink a T N => exact (mshrink_ok sr.1 sr.2 a T N h hop.1 hop.2).1
+    | recycle L => exact mrecycle sr.1 sr.2 L h hop.1 hop.2
+
 end GoNfsd.Model.BlockMap
